@@ -37,7 +37,8 @@ type stackEnv struct {
 	curOp       atomic.Int64 // number of the client-side call being executed
 	subPrefix   string       // set when the stack contains sub(...): names underneath carry this prefix
 	minChunk    int          // chunk size the registry underneath advertises (0: ocimem's 8 KiB)
-	serverURL   string       // URL of the outermost HTTP server of the stack (built last)
+	transports  []*http.Transport
+	serverURL   string // URL of the outermost HTTP server of the stack (built last)
 	singlePost  bool
 }
 
@@ -97,10 +98,28 @@ func tagOf(ctx context.Context) int64 {
 	return -1
 }
 
+func (env *stackEnv) newTransport() *http.Transport {
+	t := &http.Transport{DisableKeepAlives: false, MaxIdleConnsPerHost: 4}
+	env.transports = append(env.transports, t)
+	return t
+}
+
+// resetConns drops every pooled connection of the stack's clients.  Called after a call that
+// ended in a transport error (a request aborted half-way leaves connections in a state where the
+// next, unrelated request on them can fail), so that such noise never reaches a later call.
+func (env *stackEnv) resetConns() {
+	env.quiesce()
+	for _, t := range env.transports {
+		t.CloseIdleConnections()
+	}
+	time.Sleep(2 * time.Millisecond)
+	env.quiesce()
+}
+
 // quiesce waits until no server handler is running (a handler can outlive the client call
 // that caused it, e.g. when the transport aborts a request whose body is short).
 func (env *stackEnv) quiesce() {
-	for i := 0; i < 2000; i++ {
+	for i := 0; i < 10000; i++ {
 		if env.inflight.Load() == 0 {
 			return
 		}
@@ -213,7 +232,7 @@ func (env *stackEnv) build(s string) (ociregistry.Interface, string, error) {
 		env.singlePost = !so.DisableSinglePostUpload
 		u, _ := url.Parse(srv.URL)
 		c, err := ociclient.New(u.Host, &ociclient.Options{Insecure: true, ListPageSize: page,
-			Transport: &tagTransport{env: env, base: &http.Transport{DisableKeepAlives: false, MaxIdleConnsPerHost: 4}}})
+			Transport: &tagTransport{env: env, base: env.newTransport()}})
 		if err != nil {
 			return nil, "", err
 		}
